@@ -370,6 +370,19 @@ def check_C12(c):
     implA, modelA = both(reqsA, timeout=900)
     c.add_stream(Stream("EXPR with operators registered at adjacent precedences", reqsA, implA, modelA, numeric=False))
     n_ok += oracle(reqsA[len(pre):], implA[len(pre):])
+    # re-registration between renderings: expr() decides by the registrations in force *now* (on either thread), not by
+    # what it saw when it last rendered the operator
+    hist = []
+    for (p1, a1), (p2, a2) in [((115, "left"), (115, "right")), ((115, "right"), (115, "left")), ((115, "left"), (105, "left")), ((30, "left"), (130, "left"))]:
+        texts = ["a minus b minus c", "(a minus b) minus c", "a minus (b minus c)", "a + b minus c * d", "(a + b) minus (c * d)", "a minus b + c", "a minus (b + c)", "not (a minus b)"]
+        hist.append("REG\tinfix\t%s\t%d\tcalc\t%s\t(arg 0)" % (hx("minus"), p1, a1))
+        hist += [expr_req(t_) for t_ in texts] + ["ONW\t" + expr_req(t_) for t_ in texts]
+        hist.append("REG\tinfix\t%s\t%d\tcalc\t%s\t(arg 0)" % (hx("minus"), p2, a2))
+        hist += [expr_req(t_) for t_ in texts] + ["ONW\t" + expr_req(t_) for t_ in texts]
+    implH, modelH = both(hist, timeout=300)
+    c.add_stream(Stream("EXPR before and after re-registering an operator with another precedence / associativity", hist, implH, modelH, numeric=False))
+    keep = [i for i, r_ in enumerate(hist) if not r_.startswith("REG")]
+    n_ok += oracle([hist[i].replace("ONW\t", "") for i in keep], [implH[i] for i in keep])
     # source texts built around string literals: both quote characters, backslashes (the language has no escapes: a
     # backslash is an ordinary character), blanks, operator characters — whatever the real parser accepts must round-trip
     def lit():
@@ -468,6 +481,37 @@ def check_C11(c):
                 continue
             c.violation("implementation-vs-property", "layout change (%s) changed the parse" % kind_,
                         {"original": a, "relaid": b, "original_ast": base_ast[a], "relaid_ast": r})
+    # tall trees with shallow nesting: long operator / postfix chains (tree height 100–127, parser nesting 1–2) with up to 20
+    # redundant pairs of parentheses around an operand or a prefix of the chain — parentheses add nesting, never tree
+    # height, so all of these stay far inside the nesting limit and must parse to the tree of the plain chain
+    tall = []
+    for _ in range(40 if c.quick() else 600):
+        k = 100 + rng.below(27)
+        op = rng.choice(["+", "-", "*", "&&", "=="]) if rng.chance(3, 4) else None
+        pairs_n = 1 + rng.below(20)
+        lp, rp = "(" * pairs_n, ")" * pairs_n
+        if op:
+            items = ["x"] * k
+            plain = (" %s " % op).join(items)
+            j = rng.below(k)
+            wrapped_one = (" %s " % op).join(items[:j] + [lp + "x" + rp] + items[j + 1:])
+            cut = 1 + rng.below(k - 1)
+            wrapped_prefix = lp + (" %s " % op).join(items[:cut]) + rp + " " + op + " " + (" %s " % op).join(items[cut:])
+            tall += [(plain, wrapped_one), (plain, wrapped_prefix), ("y = " + plain, "y = (" + plain + ")")]
+        else:
+            plain = "x" + " ++" * k
+            tall += [(plain, lp + "x" + rp + " ++" * k), (plain, lp + "x" + " ++" * (k // 2) + rp + " ++" * (k - k // 2))]
+    treqs = []
+    for a_, b_ in tall:
+        treqs += [parse_req(a_), parse_req(b_)]
+    ti, tm = both(treqs, timeout=600)
+    c.add_stream(Stream("PARSE tall chains with redundant parentheses", treqs, ti, tm, numeric=False))
+    for k_, (a_, b_) in enumerate(tall):
+        ra, rb = ti[2 * k_], ti[2 * k_ + 1]
+        if not ra.startswith("OK\t") or canon(ra, False) != canon(rb, False):
+            c.violation("implementation-vs-property", "redundant parentheses around an operand of a tall, shallow expression changed the parse (or the plain chain was rejected)",
+                        {"original": a_[:200] + (" …" if len(a_) > 200 else ""), "relaid": b_[:300] + (" …" if len(b_) > 300 else ""), "original_ast": ra[:120], "relaid_ast": rb[:120],
+                         "requests": [parse_req(b_)]})
     # span-driven re-layout of arbitrary accepted inputs: gaps located with the token hook
     strs = [G.random_wordy(rng, 8) for _ in range(4000 if c.quick() else 60000)]
     tk = run_impl([tok_req(s) for s in strs], timeout=600)
